@@ -395,7 +395,187 @@ static int cmdInverse( int argc, char ** argv ) {
     return 0;
 }
 
+
+static std::string typeRefJson( const TypeDescriptor * t ) {
+    if( !t ) {
+        return "null";
+    }
+    std::ostringstream o;
+    std::string buf;
+    o << "{\"name\":" << jesc( t->Name() ? t->Name() : "" ) << ",\"type\":" << ( int ) t->Type()
+      << ",\"fund\":" << ( int ) t->FundamentalType() << ",\"nonref\":" << ( int ) t->NonRefType()
+      << ",\"base\":" << ( int ) t->BaseType()
+      << ",\"desc\":" << jesc( t->Description() ? t->Description() : "" ) << "}";
+    return o.str();
+}
+
+static std::string typeJson( const TypeDescriptor * t, int depth = 0 ) {
+    if( !t ) {
+        return "null";
+    }
+    std::ostringstream o;
+    o << "{\"name\":" << jesc( t->Name() ? t->Name() : "" ) << ",\"type\":" << ( int ) t->Type()
+      << ",\"fund\":" << ( int ) t->FundamentalType() << ",\"nonref\":" << ( int ) t->NonRefType()
+      << ",\"base\":" << ( int ) t->BaseType()
+      << ",\"desc\":" << jesc( t->Description() ? t->Description() : "" );
+    const TypeDescriptor * r = t->ReferentType();
+    o << ",\"referent\":" << ( r && depth < 6 ? typeJson( r, depth + 1 ) : "null" );
+    PrimitiveType ft = t->FundamentalType();
+    if( ( ft == ENUM_TYPE ) && t->Type() != REFERENCE_TYPE ) {
+        const EnumTypeDescriptor * et = dynamic_cast<const EnumTypeDescriptor *>( t );
+        if( et ) {
+            SDAI_Enum * e = const_cast<EnumTypeDescriptor *>( et )->CreateEnum();
+            o << ",\"items\":[";
+            if( e ) {
+                for( int i = 0; i < e->no_elements(); i++ ) {
+                    o << ( i ? "," : "" ) << jesc( e->element_at( i ) );
+                }
+                delete e;
+            }
+            o << "]";
+        }
+    }
+    const SelectTypeDescriptor * st = dynamic_cast<const SelectTypeDescriptor *>( t );
+    if( st ) {
+        o << ",\"members\":[";
+        TypeDescItr it( st->GetElements() );
+        const TypeDescriptor * m;
+        bool f = true;
+        while( ( m = it.NextTypeDesc() ) != 0 ) {
+            o << ( f ? "" : "," ) << jesc( m->Name() ? m->Name() : "" );
+            f = false;
+        }
+        o << "]";
+    }
+    const AggrTypeDescriptor * at = dynamic_cast<const AggrTypeDescriptor *>( t );
+    if( at ) {
+        AggrTypeDescriptor * a = const_cast<AggrTypeDescriptor *>( at );
+        o << ",\"b1\":" << a->Bound1() << ",\"b2\":" << a->Bound2() << ",\"b1type\":" << ( int ) a->Bound1Type() << ",\"b2type\":" << ( int ) a->Bound2Type()
+          << ",\"unique\":" << a->UniqueElements().asInt() << ",\"elemtype\":" << ( int ) a->AggrElemType();
+        ArrayTypeDescriptor * arr = dynamic_cast<ArrayTypeDescriptor *>( a );
+        if( arr ) {
+            o << ",\"optional\":" << arr->OptionalElements().asInt();
+        }
+    }
+    o << "}";
+    return o.str();
+}
+
+static std::string attrDescJson( const AttrDescriptor * ad ) {
+    std::ostringstream o;
+    o << "{\"name\":" << jesc( ad->Name() ) << ",\"owner\":" << jesc( ad->Owner().Name() )
+      << ",\"optional\":" << ad->Optional().asInt() << ",\"unique\":" << ad->Unique().asInt()
+      << ",\"attrtype\":" << ( int ) ad->AttrType() << ",\"derived\":" << ( int ) ad->Derived()
+      << ",\"typename\":" << jesc( ad->TypeName() ) << ",\"domain\":" << typeJson( ad->DomainType() ) << "}";
+    return o.str();
+}
+
+// dict : registry dump (schemas, entities, types) + attribute list of a fresh instance of every entity
+static int cmdDict( int, char ** ) {
+    Registry registry( SchemaInit );
+    std::ostringstream o;
+    o << "{\"schemas\":[";
+    registry.ResetSchemas();
+    const Schema * sc;
+    bool f = true;
+    while( ( sc = registry.NextSchema() ) != 0 ) {
+        o << ( f ? "" : "," ) << jesc( sc->Name() );
+        f = false;
+    }
+    o << "],\"entities\":[";
+    registry.ResetEntities();
+    const EntityDescriptor * ed;
+    f = true;
+    std::vector<std::string> names;
+    while( ( ed = registry.NextEntity() ) != 0 ) {
+        o << ( f ? "" : "," );
+        f = false;
+        names.push_back( ed->Name() );
+        o << "{\"name\":" << jesc( ed->Name() ) << ",\"abstract\":" << ed->AbstractEntity().asInt() << ",\"extmap\":" << ed->ExtMapping().asInt();
+        o << ",\"supertypes\":[";
+        {
+            EntityDescItr it( ed->Supertypes() );
+            const EntityDescriptor * s;
+            bool g = true;
+            while( ( s = it.NextEntityDesc() ) != 0 ) {
+                o << ( g ? "" : "," ) << jesc( s->Name() );
+                g = false;
+            }
+        }
+        o << "],\"subtypes\":[";
+        {
+            EntityDescItr it( ed->Subtypes() );
+            const EntityDescriptor * s;
+            bool g = true;
+            while( ( s = it.NextEntityDesc() ) != 0 ) {
+                o << ( g ? "" : "," ) << jesc( s->Name() );
+                g = false;
+            }
+        }
+        o << "],\"attrs\":[";
+        {
+            AttrDescItr it( ed->ExplicitAttr() );
+            const AttrDescriptor * a;
+            bool g = true;
+            while( ( a = it.NextAttrDesc() ) != 0 ) {
+                o << ( g ? "" : "," ) << attrDescJson( a );
+                g = false;
+            }
+        }
+        o << "],\"inverse\":[";
+        {
+            InverseAItr it( &( ed->InverseAttr() ) );
+            const Inverse_attribute * a;
+            bool g = true;
+            while( ( a = it.NextInverse_attribute() ) != 0 ) {
+                o << ( g ? "" : "," ) << "{\"name\":" << jesc( a->Name() ) << ",\"for_entity\":" << jesc( a->inverted_entity_id_() ? a->inverted_entity_id_() : "" )
+                  << ",\"for_attr\":" << jesc( a->inverted_attr_id_() ? a->inverted_attr_id_() : "" )
+                  << ",\"typename\":" << jesc( a->TypeName() ) << ",\"domain\":" << typeJson( a->DomainType() ) << "}";
+                g = false;
+            }
+        }
+        o << "]}";
+    }
+    o << "],\"types\":[";
+    registry.ResetTypes();
+    const TypeDescriptor * td;
+    f = true;
+    while( ( td = registry.NextType() ) != 0 ) {
+        o << ( f ? "" : "," ) << typeJson( td );
+        f = false;
+    }
+    o << "],\"instances\":[";
+    f = true;
+    for( size_t i = 0; i < names.size(); i++ ) {
+        const EntityDescriptor * e2 = registry.FindEntity( names[i].c_str() );
+        if( !e2 ) {
+            continue;
+        }
+        o << ( f ? "" : "," ) << "{\"entity\":" << jesc( names[i] );
+        f = false;
+        SDAI_Application_instance * ai = registry.ObjCreate( names[i].c_str() );
+        if( !ai || ai == ENTITY_NULL ) {
+            o << ",\"created\":0}";
+            continue;
+        }
+        o << ",\"created\":1,\"attrs\":[";
+        for( int k = 0; k < ai->attributes.list_length(); k++ ) {
+            STEPattribute & a = ai->attributes[k];
+            o << ( k ? "," : "" ) << "{\"name\":" << jesc( a.Name() ) << ",\"owner\":" << jesc( a.getADesc()->Owner().Name() )
+              << ",\"attrtype\":" << ( int ) a.getADesc()->AttrType() << ",\"derived\":" << ( a.IsDerived() ? 1 : 0 )
+              << ",\"type\":" << ( int ) a.Type() << ",\"nonref\":" << ( int ) a.NonRefType() << "}";
+        }
+        o << "],\"text\":" << jesc( instText( ai ) ) << "}";
+    }
+    o << "]}";
+    emit( o.str() );
+    return 0;
+}
+
 int main( int argc, char ** argv ) {
+    if( argc >= 2 && std::string( argv[1] ) == "dict" ) {
+        return cmdDict( argc, argv );
+    }
     if( argc < 3 ) {
         std::cerr << "usage: p21drv roundtrip|read|append|ws|lazy|inverse ..." << std::endl;
         return 2;
